@@ -33,6 +33,27 @@ checks.update({
    technique="explicit-state BFS over operation/tick sequences on a simulated cluster under a virtual clock; reference model with millisecond expiry compared at every step and in every state",
    text="All sequences up to depth 5 (quick) / 6 (thorough) over Put with every option form, Expire, Get, GetPut, Incr, ticks landing 1ms before/at/after deadlines and eviction passes, through EO/EN/CC (RN, R=2 and default TTL in thorough): every result and a Get from every member in every state agree with the reference model.",
    note="ticks and deadlines are whole milliseconds so comparisons never fall inside the stored resolution"),
+
+ "C05": dict(cat="fault_enumeration", engine="faultgrid", ref="6 C05",
+   technique="exhaustive enumeration of the quorum configuration grid x injected unreachable-backup subsets x entry points on real members (simnet fault injection), white-box copy counts",
+   text="Full grid over (ReplicaCount, WriteQuorum, ReadQuorum) with quorum <= replicas, every subset of backup owners unreachable during the Put and during the Get, three entry points (plus killed-undetected members in thorough): Put acknowledged iff at least W copies were stored, an unreachable backup never fails a Put that can still reach W, the error is the write-quorum error otherwise; Get returns a value only with at least RQ obtainable copies and the read-quorum error when an acknowledged key has too few. Member-count quorum: every registered command and NewDMap answer the cluster-quorum error below the quorum and leave the state unchanged.",
+   note="unreachable = refused connection from the partition owner; internal.node.updaterouting exempt (it is how a member becomes operable)"),
+ "C06": dict(cat="model_checking", engine="faultgrid", ref="6 C06",
+   technique="exhaustive enumeration of copy layouts and of fragment delivery sequences (orders with repetition) through the real move-fragment handler and the real read path",
+   text="Merge: every target content x every sequence with repetition of deliveries (length <= 2 quick / 3 thorough) of real exported kvstore tables over keys {a,b} and timestamps {1,2,2-tie,3}: after each delivery the target holds a newest copy of every key. Read: all 255 layouts of copies over {owner, previous owner, backup1, backup2} x timestamps {absent,1,2,3} (plus R=1 layouts) x read-repair on/off x 3 entry points: Get returns a newest copy; with read-repair the owner's copy and every backup that held a different version equal the winner.",
+   note="backups holding no copy are not demanded to be repaired (the statement says 'stale backup copy')"),
+ "C10": dict(cat="model_checking", engine="clustermc", ref="6 C10",
+   technique="explicit-state BFS over Put/Get/tick/eviction sequences per eviction configuration on real members; white-box per-partition and per-member bounds after every step",
+   text="For every (partition count, MaxKeys incl. values below the partition count or MaxInuse, LRUSamples in {1,2,5}, 1-2 members) configuration all Put sequences up to depth 4 (quick) / 5 (thorough) over 4-5 keys: every Put succeeds, the written key is readable, each owned partition holds at most max(1,MaxKeys/owned) keys (or its byte share plus one entry), the member at most max(MaxKeys,owned). Idle: sequences over Put/Get/Tick 60ms/Tick 120ms/eviction with a 100ms window: a key touched within the window is never evicted or unreadable, an untouched one is gone after three full eviction passes.",
+   note="'eventually disappears' is read as: gone after three full eviction passes; a read after the window counts as a touch"),
+ "C15": dict(cat="model_checking", engine="faultgrid", ref="6 C15",
+   technique="exhaustive differential enumeration: every (operation, option combination, pre-state, replica count) case through all six client paths on fresh real clusters under a virtual clock",
+   text="232 cases (Put x {-,NX,XX} x {-,EX,PX,EXAT,PXAT}, Expire, GetPut, Incr, Decr, IncrByFloat, Lock, LockWithTimeout, Unlock, Lease, Delete, Get x pre-state {absent, present, with ttl, expired-not-evicted} x R in {1,2}; multi-key Delete x placements x map rotations) x paths {EO, EN, CC, RO, RN, PL}: result class, returned value and decoded stored copies (value, expiry to the millisecond, role) must be identical on all paths; a multi-key Delete must remove every key.",
+   note="differential oracle: it says the paths agree, C09/C04 say what the right answer is"),
+ "C19": dict(cat="model_checking", engine="clustermc", ref="6 C19",
+   technique="explicit-state BFS over operation sequences on two colliding DMaps on real members; two independent reference models plus byte-level isolation and white-box Destroy oracles",
+   text="All sequences up to depth 3 (quick) / 4 (thorough) of Put, Delete, Incr, Lock, Expire, Destroy, Scan, tick, eviction on two DMaps whose names and keys collide (\"ab\"+\"c\" vs \"a\"+\"bc\", identical keys, \"x\" vs \"dmap.x\"), N in 1..3, R in 1..2, entry EO/EN/CC: each DMap reads per its own model from every member, an operation on one never changes a stored byte of the other, after Destroy no copy or fragment of that DMap exists anywhere and it is usable again.",
+   note="client Scan only through the cluster client (EmbeddedDMap.Scan opens a real TCP client)"),
 })
 not_applicable = {}
 all_ids = ["C%02d" % i for i in range(1, 21)]
@@ -52,7 +73,8 @@ m = {
  "engines": [
    {"name": "kvmc", "path": "harness/kvmc", "serves_properties": ["C11", "C12", "C20"], "kind_free_text": "explicit-state BFS over the real storage engine"},
    {"name": "schedmc", "path": "harness/schedmc", "serves_properties": ["C01", "C07", "C08"], "kind_free_text": "stateless schedule exploration (preemption bounded DFS) of real members under a cooperative scheduler"},
-   {"name": "clustermc", "path": "harness/clustermc", "serves_properties": ["C04", "C09"], "kind_free_text": "explicit-state BFS over event sequences on a simulated cluster of real members (path replay)"},
+   {"name": "faultgrid", "path": "harness/checks", "serves_properties": ["C05", "C06", "C15"], "kind_free_text": "exhaustive enumeration of finite configuration / fault / layout grids, one fresh real cluster per case"},
+   {"name": "clustermc", "path": "harness/clustermc", "serves_properties": ["C04", "C09", "C10", "C19"], "kind_free_text": "explicit-state BFS over event sequences on a simulated cluster of real members (path replay)"},
  ],
  "checks": [],
  "not_applicable": [{"property_id": k, "reason": v} for k, v in sorted(not_applicable.items())],
